@@ -497,6 +497,10 @@ def run(ctx, rep):
     dtypes.check_default_precision_attributes(ctx, rep, 'C20.S', [CO, GM, GI])
     rep.rule('C20.H', "the block-update operator reads the published precision matrix of the current state before it stores the proposed precision (and of the proposed state after)")
     check_block_update_reads_before_it_writes(ctx, rep)
+    # what the operator restores or proposes reaches the GMRF and the coalescent that listen to the field and the precision: through the notifying setter (C11.W)
+    from props import c11 as _c11h
+    from sa.report import RuleProxy as _RPh
+    _c11h.check_inplace(ctx, _RPh(rep, 'C20.H', 'operators::'), rule='C11.W', only=lambda m, fn: m.name.startswith('torchtree.inference.mcmc'))
     # C20.O — the integrated coalescent and the sufficient statistics sort the events of every sample themselves (order-kind analysis of sa/orders.py)
     from sa import orders
     from sa.report import RuleProxy
